@@ -569,7 +569,11 @@ class Evaluator:
                     return r
             elif k in ("nullstmt",):
                 pass
-            elif k in ("while", "do", "rangefor", "switch", "break", "continue", "unkstmt"):
+            elif k == "while":
+                self.exec_for({"k": "for", "init": None, "c": s["c"], "inc": None, "body": s["body"]}, frame)
+            elif k == "rangefor":
+                self.exec_rangefor(s, frame)
+            elif k in ("do", "switch", "break", "continue", "unkstmt"):
                 raise Inconclusive("statement kind %s in %s" % (k, frame["f"]["name"]))
             else:
                 self.eval(s, frame)  # expression statement
@@ -588,6 +592,31 @@ class Evaluator:
         frame["locals"][d["i"]] = lv
         if d.get("init") is not None:
             self.init_into(lv, d["init"], frame)
+
+    def exec_rangefor(self, s, frame):
+        rng = self.eval(s["range"], frame)
+        if not isinstance(rng, LV):
+            rng = self.new_loc(rng, "range")
+        v = self.load(rng)
+        if isinstance(v, Obj) and "_M_elems" in v.f and isinstance(v.f["_M_elems"], Arr):
+            n = len(v.f["_M_elems"].items)
+            path = rng.path + ("_M_elems",)
+        elif isinstance(v, Arr):
+            n = len(v.items)
+            path = rng.path
+        else:
+            raise Inconclusive("range-for over %r" % (type(v).__name__,))
+        d = s["var"]
+        t = self.F.T(d["t"])
+        for i in range(n):
+            el = LV(rng.loc, path + (i,))
+            if is_ref(t):
+                frame["locals"][d["i"]] = el
+            else:
+                frame["locals"][d["i"]] = self.new_loc(self.load(el), "l_" + d["n"])
+            r = self.exec_block_list([s["body"]], frame)
+            if r is not _FALL:
+                raise Inconclusive("return inside range-for")
 
     def exec_for(self, s, frame):
         if s.get("init"):
